@@ -5,5 +5,6 @@ ids="$@"
 [ -z "$ids" ] && ids=$(ls seeded | grep -E '^C[0-9]+(-r[0-9]+)?$' | sort)
 for id in $ids; do
   chk=${id%%-*}
+  grep -q '"expected_rc_on_head": 0' seeded/$id/meta.json && { echo "== $id superseded (expected rc=0 on HEAD)"; continue; }
   tools/run_seeded.sh $id $chk 2>&1 | grep -E "^==|patch does not apply|not clean" | head -2
 done
